@@ -62,6 +62,7 @@ Definition prefix_match (o d : list N) : bool :=
   | [256; l; h] => (l <=? len d) && (digest (takeN l d) =? h)
   | _ => is_prefix o d
   end.
+Definition obs_len (o : list N) : N := match o with [256; l; _] => l | _ => len o end.
 Fixpoint oracle_up (d : list N) (placed : option (list N)) (ops : list dop) (obs : list (list (list N))) : bool :=
   match ops, obs with
   | (code, args) :: r, ob :: rb =>
@@ -75,8 +76,15 @@ Fixpoint oracle_up (d : list N) (placed : option (list N)) (ops : list dop) (obs
            | None =>
                (* an attempt that is not cut (the whole stream of the resuming client arrived) must complete *)
                let uncut := len (a 0 args) + len (a 1 args) <=? dbe (a 2 args) in
+               (* the partial file holds EXACTLY the prefix received: what was there when the transfer began (the
+                  offset the resuming client was told: all of d but the data it now sends) plus the data bytes that
+                  arrived before the cut - no more, and not a byte less *)
+               let off := len d - len (a 1 args) in
+               let delivered := N.min (len (a 1 args)) (dbe (a 2 args) - len (a 0 args)) in
                if flag fin then bytes_match d finb && negb (flag par)
-               else negb uncut && (negb (flag par) || prefix_match parb d)
+               else negb uncut &&
+                    (if flag par then prefix_match parb d && (obs_len parb =? off + delivered)
+                     else off + delivered =? 0)
            end) && oracle_up d placed r rb
       | _ => oracle_up d placed r rb
       end
